@@ -842,4 +842,137 @@ theorem proc_no_iterDrop (t : Tmpl) : ∀ (ctx : Ctx) (loc : Env),
           | cons a as iha => rw [List.foldr_cons, iha, body_disabled ctx _ b hl.1.1 hre]; rfl
         rw [hempty]; rfl
 
+/-! ## nested iterators: every generated role evaluates the inner range in its own stack -/
+
+theorem lookup_append_some {a : Env} {k v : String} (b : Env) (h : lookup a k = some v) : lookup (a ++ b) k = some v := by
+  induction a with
+  | nil => simp [lookup, Assoc.get] at h
+  | cons kv rest ih =>
+    obtain ⟨k', v'⟩ := kv
+    simp only [lookup, Assoc.get, List.cons_append] at h ⊢
+    split
+    · rename_i hk; simpa [hk] using h
+    · rename_i hk; simp only [hk] at h; exact ih h
+
+/-- The stack a role hands to its children after its header: own defaults / (locals ++ own vars) /
+    own user vars in front of the ancestors'. -/
+theorem procHdr_ok_ctx {ctx : Ctx} {loc : Env} {h : Hdr} {x : List Field} {i : Info} {c' : Ctx} {ex : List String}
+    (hh : procHdr ctx loc h x = .ok i c' ex) :
+    c'.U = h.uvars ++ ctx.U ∧ (∃ v', c'.V = (loc ++ v') ++ ctx.V) ∧ (∃ d, c'.D = d ++ ctx.D) := by
+  simp only [procHdr] at hh
+  cases hen : evalField (ctx.look loc) h.enabled with
+  | none => simp [hen] at hh
+  | some en =>
+    simp only [hen] at hh
+    cases htr : truthy en with
+    | false => simp [htr] at hh
+    | true =>
+      simp only [htr, Bool.not_true, Bool.false_eq_true, if_false] at hh
+      split at hh
+      · simp at hh
+      · split at hh
+        · simp at hh
+        · split at hh
+          · injection hh with hi hc hx
+            subst hc
+            exact ⟨rfl, ⟨_, rfl⟩, ⟨_, rfl⟩⟩
+          · simp at hh
+
+/-- A local (the iteration variable of the iterator that generated this role) is what the role's
+    children — in particular a nested iterator evaluating its range — read under that name, unless
+    a user variable of the same name overrides it (`FlattenStack(defaults, vars, uservars)`). -/
+theorem procHdr_binds {ctx : Ctx} {loc : Env} {h : Hdr} {x : List Field} {i : Info} {c' : Ctx} {ex : List String}
+    (hh : procHdr ctx loc h x = .ok i c' ex) (var v : String) (hl : lookup loc var = some v)
+    (hu : lookup (h.uvars ++ ctx.U) var = none) : c'.lookRange var = some v := by
+  obtain ⟨hU, ⟨v', hV⟩, _⟩ := procHdr_ok_ctx hh
+  have h1 : lookup c'.V var = some v := by
+    rw [hV, List.append_assoc]; exact lookup_append_some _ hl
+  simp [Ctx.lookRange, lookupChain, hU, hu, h1]
+
+@[simp] theorem Tree.leaves_append (a b : Tree) : (a ++ b).leaves = a.leaves ++ b.leaves := by
+  induction a with
+  | nil => rfl
+  | agg i k n _ ihn => simp [Tree.leaves, ihn]
+  | task i x c n ihn => simp [Tree.leaves, ihn]
+  | call i x c n ihn => simp [Tree.leaves, ihn]
+  | iter k n _ ihn => simp [Tree.leaves, ihn]
+
+/-- pruning an aggregator that ended up empty loses no task / call role -/
+theorem aggOut_leaves (i : Info) (k : Out) : (aggOut i k).f.leaves = k.f.leaves := by
+  rw [aggOut_f]
+  cases hk : k.f <;> simp [aggTree, Tree.leaves]
+
+theorem fold_leaves (ctx : Ctx) (var : String) (body : Tmpl) (vals : List String) :
+    (vals.foldr (fun v acc => (proc ctx [(var, v)] body).seq acc) Out.empty).f.leaves =
+      vals.flatMap fun v => (proc ctx [(var, v)] body).f.leaves := by
+  induction vals with
+  | nil => rfl
+  | cons a as ih => simp [ih]
+
+/-- the task / call roles under an iterator (kept by its parent): per range element, in range order -/
+theorem iter_leaves (ctx : Ctx) (loc : Env) (r : RangeT) (v : String) (b : Tmpl) (hb : rawEnabled b = true) :
+    (proc ctx loc (.iter r v b .nil)).f.leaves =
+      match evalRange ctx.lookRange r with
+      | none => []
+      | some ws => ws.flatMap fun w => (proc ctx [(v, w)] b).f.leaves := by
+  simp only [proc, Out.seq_empty]
+  cases evalRange ctx.lookRange r with
+  | none => simp [Tree.leaves]
+  | some ws => simp only [hb, iterOut, if_true, Tree.leaves, List.append_nil, fold_leaves]
+
+/-- the task / call roles under one generated aggregator: those of its children, processed in ITS stack -/
+theorem agg_leaves (ctx : Ctx) (loc : Env) (h : Hdr) (kids : Tmpl) :
+    (proc ctx loc (.agg h kids .nil)).f.leaves =
+      match procHdr ctx loc h [] with
+      | .ok _ c' _ => (proc c' [] kids).f.leaves
+      | _ => [] := by
+  simp only [proc, Out.seq_empty]
+  cases procHdr ctx loc h [] with
+  | ok i c' ex => simp only [aggOut_leaves]
+  | error => simp [Tree.leaves]
+  | masked => simp [Tree.leaves]
+  | disabled => simp [Tree.leaves, Out.empty]
+
+/-- The task / call roles of a nest of iterators of ANY depth: the innermost template, instantiated
+    once per stack of `nestCtxs`, in that order. -/
+theorem nest_leaves (inner : Tmpl) : ∀ (ls : List Level) (ctx : Ctx), nestEnabled ls = true →
+    (proc ctx [] (nest ls inner)).f.leaves = (nestCtxs ctx ls).flatMap fun c => (proc c [] inner).f.leaves := by
+  intro ls
+  induction ls with
+  | nil => intro ctx _; simp [nest, nestCtxs]
+  | cons l ls ih =>
+    intro ctx hen
+    simp only [nestEnabled, List.all_cons, Bool.and_eq_true] at hen
+    have hl : rawEnabled (.agg l.hdr (nest ls inner) .nil) = true := hen.1
+    have hls : nestEnabled ls = true := hen.2
+    rw [nest, iter_leaves ctx [] l.rng l.var _ hl]
+    simp only [nestCtxs]
+    cases evalRange ctx.lookRange l.rng with
+    | none => simp
+    | some ws =>
+      simp only [List.flatMap_assoc]
+      congr 1
+      funext w
+      rw [agg_leaves]
+      cases procHdr ctx [(l.var, w)] l.hdr [] with
+      | ok i c' ex => exact ih c' hls
+      | error => simp
+      | masked => simp
+      | disabled => simp
+
+/-- an iterator without later siblings ignores the locals it is reached with -/
+theorem proc_iter_loc (ctx : Ctx) (loc : Env) (r : RangeT) (v : String) (b : Tmpl) :
+    proc ctx loc (.iter r v b .nil) = proc ctx [] (.iter r v b .nil) := by
+  simp [proc]
+
+/-- sibling copies of an iterator's template do not influence each other: the outcome over a
+    concatenated range is the concatenation of the outcomes -/
+theorem fold_append (ctx : Ctx) (var : String) (body : Tmpl) (vs₁ vs₂ : List String) :
+    (vs₁ ++ vs₂).foldr (fun v acc => (proc ctx [(var, v)] body).seq acc) Out.empty =
+      (vs₁.foldr (fun v acc => (proc ctx [(var, v)] body).seq acc) Out.empty).seq
+        (vs₂.foldr (fun v acc => (proc ctx [(var, v)] body).seq acc) Out.empty) := by
+  induction vs₁ with
+  | nil => simp
+  | cons a as ih => simp only [List.cons_append, List.foldr_cons, ih, Out.seq_assoc]
+
 end Load
